@@ -134,6 +134,14 @@ def generate(rng, tier, idx):
             o['path'] = rng.choice(subs)
         if k == 'lookup':
             o['path'] = rng.choice(info['need']) if info['need'] else 'x'
+        if o['api'] == 'cli' and rng.random() < 0.4:
+            # further command-line options: each reaches code that the plain invocation does not (debug logging, forced and
+            # incremental rewrites, TIMESTAMP refresh, compression, device checks, job counts, unsatisfiable -s)
+            if k.startswith('verify'):
+                o['xflags'] = rng.choice([['--debug'], ['-x'], ['-j', '1'], ['-j', '3'], ['-P'], ['-R'], ['-s'], ['-s', '-P'], ['--debug', '-x', '-j', '2']])
+            elif k.startswith('update'):
+                o['xflags'] = rng.choice([['--debug'], ['-f'], ['-i'], ['-t'], ['-i', '-t'], ['-x'], ['-c', '0'], ['-c', '1', '-C', 'xz'], ['-c', '100000', '-f'],
+                                          ['-C', 'bz2'], ['-j', '2'], ['-S'], ['--debug', '-f', '-c', '64'], ['-P'], ['-t', '-f', '--debug']])
         ops.append(o)
     odd = []
     if rng.random() < 0.08:
@@ -414,12 +422,13 @@ def run_op(w, seam, op, opi, violations, counters):
     with seam:
         seam.begin_op(opi, step_cap=20000)
         if op.get('api') == 'cli' and kind != 'lookup':
+            xf = list(op.get('xflags', []))
             if kind in ('verify', 'verify-sub'):
-                argv = ['verify', os.path.join(w.root, path) if path else w.root]
+                argv = ['verify'] + xf + [os.path.join(w.root, path) if path else w.root]
             elif kind == 'verify-kg':
-                argv = ['verify', '-k', w.root]
+                argv = ['verify', '-k'] + xf + [w.root]
             elif kind in ('update', 'update-sub'):
-                argv = ['update', '-p', prof] + (['-H', ' '.join(hashes)] if hashes else []) + [os.path.join(w.root, path) if path else w.root]
+                argv = ['update', '-p', prof] + xf + (['-H', ' '.join(hashes)] if hashes else []) + [os.path.join(w.root, path) if path else w.root]
             else:
                 argv = ['create', '-p', prof] + (['-H', ' '.join(hashes)] if hashes else []) + [w.root]
             c = run_cli(argv)
